@@ -83,14 +83,17 @@ class Closure:
 
 
 class Inline:
-    def __init__(self, func, args, post=None):
+    def __init__(self, func, args, post=None, cont=None):
         self.func, self.args, self.post = func, args, post     # post: name of a registered post-processor applied to the return value
+        self.cont = cont        # continuation object with .step(ex, st, return_value) -> call result (value | Inline | Fork | Diverge)
 
 
 class Fork:
-    """alts: [(cond, thunk)], thunk(ex, st, args) -> value written to the call's destination (or an Inline / Diverge)"""
-    def __init__(self, alts):
+    """alts: [(cond, thunk)], thunk(ex, st, args) -> value written to the call's destination (or an Inline / Diverge / Fork).
+    `args` (optional) replaces the call's argument list as the object graph that is copied together with the state and handed to the thunks."""
+    def __init__(self, alts, args=None):
         self.alts = alts
+        self.args = args
 
 
 class Diverge:
@@ -115,12 +118,14 @@ class Frame:
         self.ret = ret          # (lhs place, next bb) in the caller
         self.bb = 'bb0'
         self.post = None
+        self.cont = None
 
     def __deepcopy__(self, memo):
         f = Frame(self.fn, self.ret)
         memo[id(self)] = f
         f.fid = self.fid
         f.post = self.post
+        f.cont = copy.deepcopy(self.cont, memo)
         f.bb = self.bb
         f.locals = copy.deepcopy(self.locals, memo)
         return f
@@ -722,6 +727,12 @@ class Exec:
                     self.finish(st, rv, 'return'); return
                 caller = st.frames[-1]
                 lhs, nxt = fr.ret
+                if fr.cont is not None:
+                    # a model is driving a sequence of calls (iterator pipeline with closures): hand the result back to it
+                    r2 = fr.cont.step(self, st, rv)
+                    if self.apply_call_result(st, work, r2, lhs, nxt, [fr.cont]):
+                        continue
+                    return
                 self.write(caller, lhs, rv); caller.bb = nxt
                 continue
             if t == 'unreachable':
@@ -786,6 +797,7 @@ class Exec:
         if isinstance(r, Inline):
             nf = Frame(r.func, (lhs, nxt))
             nf.post = r.post
+            nf.cont = r.cont
             if len(r.args) != len(r.func.params):
                 # closures called through Fn* traits pass (closure, (args,)) — spread the tuple
                 if len(r.func.params) >= 1 and len(r.args) == 2 and isinstance(r.args[1], list) and len(r.args[1]) + 1 == len(r.func.params):
@@ -812,7 +824,7 @@ class Exec:
                     return cont
                 alts.append((c, mk(thunk)))
             sub = []
-            self.fork(st, args, sub, alts)
+            self.fork(st, r.args if r.args is not None else args, sub, alts)
             for s2 in sub:
                 v = s2._pending; del s2._pending
                 try:
